@@ -192,7 +192,7 @@ func checkC10(w *World, r *Report) {
 			}
 			instrsOf(f, func(in ssa.Instruction) {
 				if c, ok := in.(ssa.CallInstruction); ok {
-					if g := c.Common().StaticCallee(); g != nil && g.Pkg != nil && g.Pkg.Pkg.Path() == twigPath && !visited[g] && len(g.Blocks) > 0 {
+					if g := c.Common().StaticCallee(); g != nil && isTwigFn(g) && !visited[g] && len(g.Blocks) > 0 {
 						visited[g] = true
 						next = append(next, g)
 					}
@@ -253,7 +253,7 @@ func copiesField(fn *ssa.Function, src, dst ssa.Value, field string, before func
 			}
 		case *ssa.Call:
 			h := x.Call.StaticCallee()
-			if h == nil || depth > 2 || h.Pkg == nil || h.Pkg.Pkg.Path() != twigPath || len(h.Blocks) == 0 || !before(x.Block(), x) {
+			if h == nil || depth > 2 || !isTwigFn(h) || len(h.Blocks) == 0 || !before(x.Block(), x) {
 				return
 			}
 			si, di := -1, -1
@@ -500,7 +500,7 @@ func originsAll(v ssa.Value, depth int, seen map[ssa.Value]bool, out *[]fieldRef
 		}
 	case *ssa.Call:
 		// a helper of the package that selects the nodes: what it can return
-		if h := x.Call.StaticCallee(); h != nil && h.Pkg != nil && h.Pkg.Pkg.Path() == twigPath && len(h.Blocks) > 0 {
+		if h := x.Call.StaticCallee(); h != nil && isTwigFn(h) && len(h.Blocks) > 0 {
 			instrsOf(h, func(in ssa.Instruction) {
 				if ret, ok := in.(*ssa.Return); ok {
 					for _, rv := range retResults(ret) {
@@ -552,7 +552,7 @@ func checkOverrideLookup(w *World, r *Report) {
 					return false
 				}
 				h := c.Call.StaticCallee()
-				if h == nil || h.Pkg == nil || h.Pkg.Pkg.Path() != twigPath || len(h.Blocks) == 0 {
+				if h == nil || !isTwigFn(h) || len(h.Blocks) == 0 {
 					return false
 				}
 				if st, done := lookupSummary[h]; done {
